@@ -13,7 +13,7 @@ def gen_case(rng, i):
     vs = gen.VARS6[6 - nv:]
     inv, outv = vs[: max(1, nv // 2)], vs[max(1, nv // 2):]
     shape = ["bounded", "bounded", "halfopen", "random", "infeasible", "free_var", "empty", "disconnected_infeasible",
-             "presolve_trap", "vacuous_row", "near_equal_bounds", "print_twin"][i % 12]
+             "presolve_trap", "vacuous_row", "near_equal_bounds", "print_twin", "huge_coefficient"][i % 13]
     if shape == "presolve_trap":
         nv = 3
         vs = gen.VARS6[3:]
@@ -62,6 +62,14 @@ def gen_case(rng, i):
         a = [({v: sg}, B + d)] + ([({v: -sg}, 5)] if rng.random() < 0.5 else [])
         g = [({v: sg}, B)] + (gen.bounded_list_raw(rng, outv) if outv else [])
         near = ({v: sg}, True, "contract")
+    elif shape == "huge_coefficient":
+        # a row whose dominant coefficient is NEGATIVE and beyond 10^6 (a lower bound written at a huge scale): rescaling a row must keep its direction
+        K = rng.choice([1500000, 1200000, 2000000])
+        v = inv[0]
+        lo = rng.choice([1, 2, 3])
+        a = [({v: -K}, -lo), ({v: 1}, rng.randint(5, 10))]          # v >= lo/K (about 10^-6),  v <= 5..10
+        g = gen.bounded_list_raw(rng, outv) if outv else []
+        huge = ({v: 1}, True, "contract")
     elif shape == "vacuous_row":
         # ordinary rows together with a row that has no variable (what  x + 1 <= x  leaves): a contradiction when its constant is negative
         a = gen.bounded_list_raw(rng, inv)
@@ -82,6 +90,8 @@ def gen_case(rng, i):
     objs.append(({rng.choice(vs): 1}, True, "bounds"))
     objs.append(({rng.choice(vs): 1}, False, "bounds"))
     objs.append(({rng.choice(inv): rng.choice([-1, 1])}, rng.random() < 0.5, "list"))
+    if shape == "huge_coefficient":
+        objs = [huge, ({inv[0]: 1}, True, "bounds"), (huge[0], True, "list")] + objs[:2]
     if shape == "near_equal_bounds":
         objs = [near, ({near[0].copy().popitem()[0]: 1}, near[0][inv[0]] > 0, "bounds"), (near[0], True, "list")] + objs[:2]
     if shape == "presolve_trap":
